@@ -353,10 +353,15 @@ fn main() {
             // the staging buffer of a Polars output (model: pstage of Model/PolarsOut.v, interpreter run_pstage): random
             // stores — slots left unwritten (stay null), slots written twice (last store wins), any order — made through
             // UninitVec::uset and through UninitRefMut::uset on the borrowed buffer, then assume_init
-            {
+            for variant in 0..2 {
                 let nw = if len == 0 { 0 } else { rng.below(2 * len + 1) };
-                let writes: Vec<(usize, Option<f64>)> = (0..nw).map(|_| (rng.below(len),
-                    if rng.chance(1, 4) { None } else { Some(rng.range(-12, 12) as f64 / 4.0) })).collect();
+                // variant 1 (seed C07-6: a store of None skipped "because every slot starts as null"): every slot first receives a
+                // value, then every other slot a None - a recycled buffer must end up with exactly the last stores
+                let writes: Vec<(usize, Option<f64>)> = if variant == 1 {
+                    (0..len).map(|i| (i, Some(i as f64 + 0.5))).chain((0..len).filter(|i| i % 2 == 0).map(|i| (i, None))).collect()
+                } else { (0..nw).map(|_| (rng.below(len),
+                    if rng.chance(1, 4) { None } else { Some(rng.range(-12, 12) as f64 / 4.0) })).collect() };
+                let nw = writes.len();
                 let distinct = { let mut d: Vec<usize> = writes.iter().map(|w| w.0).collect(); d.sort(); d.dedup(); d.len() };
                 let term = format!("(run_pstage {} {})", vh::coq_nat(len),
                     coq_list(&writes, |w| format!("({}, {})", vh::coq_nat(w.0), coq_opt(&w.1, |v| coq_f64(*v)))));
